@@ -17,7 +17,7 @@ func init() {
 			"R1": "closed writer set and value shapes of TablePlayerState.Bankroll; no address escape",
 			"R2": "settlement pairing: same result entry for index and amount; whole result list",
 			"R3": "no lost update between additive top-ups and an absolute settlement write",
-			"R4": "start stack = PlayerStates[k].Bankroll for k = elem(GamePlayerIndexes), no arithmetic",
+			"R4": "start stack = PlayerStates[k].Bankroll for k = elem(GamePlayerIndexes), no arithmetic; bankrolls (like every other table field) survive the JSON clone made at every hand open",
 			"R5": "one top-up store per call, not in a loop",
 			"R6": "departures only drop: the leave computation stores to no TablePlayerState field; no append onto a truncated re-slice of a list the function did not allocate (in-place filtering of the live player list); after a departure during a hand the hand's index list is re-mapped through id → position in the NEW player list (as C02.R4), so results keep being credited to their owners",
 		},
@@ -123,6 +123,7 @@ func settlePair(player, r *Sym) string {
 
 func checkC01(c *Ctx) {
 	p := c.P
+	checkCloneCompleteness(c, "R4")
 	var writers []bankrollWriter
 	for _, ss := range p.FieldStores("TablePlayerState", "Bankroll") {
 		shape, d := classifyBankrollStore(p, ss)
